@@ -7,7 +7,7 @@ use crate::{
     datastructures::{
         common::{ClockIdentity, TlvType},
         datasets::{InternalCurrentDS, InternalDefaultDS, InternalParentDS, PathTraceDS},
-        messages::Message,
+        messages::{Message, MAX_DATA_LEN},
     },
     filters::Filter,
     port::{
@@ -18,6 +18,9 @@ use crate::{
     time::Duration,
     Clock,
 };
+
+/// Wire size of an announce message without TLVs (header + body)
+const ANNOUNCE_WIRE_SIZE: usize = 64;
 
 impl<A: AcceptableMasterList, C: Clock, F: Filter, R: Rng, S: PtpInstanceStateMutex>
     Port<'_, Running, A, R, C, F, S>
@@ -111,10 +114,27 @@ impl<A: AcceptableMasterList, C: Clock, F: Filter, R: Rng, S: PtpInstanceStateMu
                 self.multiport_disable = Some(Duration::ZERO);
                 self.set_forced_port_state(PortState::Passive);
             }
+            // A TLV that does not fit into an (otherwise empty) announce of this instance
+            // can never be forwarded; handing it to the forwarder anyway would leave it at
+            // the head of every port's queue forever, blocking all later TLVs.
+            let max_forward_tlv_size = self.instance_state.with_ref(|state| {
+                let room = MAX_DATA_LEN - ANNOUNCE_WIRE_SIZE;
+                if state.path_trace_ds.enable {
+                    let path_trace_size = 4 + 8 * (state.path_trace_ds.list.len() + 1);
+                    if room > path_trace_size {
+                        return room - path_trace_size;
+                    }
+                }
+                room
+            });
             actions![PortAction::ResetAnnounceReceiptTimer {
                 duration: self.config.announce_duration(&mut self.rng),
             }]
-            .with_forward_tlvs(message.suffix.tlv(), message.header.source_port_identity)
+            .with_forward_tlvs(
+                message.suffix.tlv(),
+                message.header.source_port_identity,
+                max_forward_tlv_size,
+            )
         } else {
             actions![]
         }
